@@ -48,7 +48,7 @@ impl Prop for C19 {
     type Case = Case;
     const ID: &'static str = "C19";
     const NUM: u64 = 19;
-    const RULE: &'static str = "predecessor vectors of length 1..12 (each entry None or any in-range vertex: trees, rho-shapes, pure cycles, self-references), every start vertex class, predicates 'vertex in T', 'predecessor is None', 'vertex in T or predecessor in T2', and search(s, t) for every t; enum leg: every vector of length <=4 (quick) / <=5 (thorough) x every start x every single target. Termination is decided without a clock: the predicate counts its own invocations and panics after 2*len+4 calls. Non-trivial = the chain from s enters a cycle, or the first target lies on a tail at distance >=2; distinct = distinct serialised case.";
+    const RULE: &'static str = "predecessor vectors of length 1..12 (each entry None or any in-range vertex: trees, rho-shapes, pure cycles, self-references), every start vertex class, predicates 'vertex in T', 'predecessor is None', 'vertex in T or predecessor in T2', and search(s, t) for every t; enum leg: every vector of length <=4 (quick) / <=5 (thorough) x every start x every single target. Termination is decided without a clock: the predicate counts its own invocations and panics after 2*len+4 calls. One case in 5 has a vector of length 13..140 or one of {33,34,64,65,66,128,129,257} with long scrambled chains. Non-trivial = the chain from s enters a cycle, or the first target lies on a tail at distance >=2; distinct = distinct serialised case.";
     const ASSUMPTIONS: &'static [&'static str] = &[
         "entries are in range (out-of-range entries are C13's concern)",
         "predicates are pure functions of (vertex, predecessor)",
